@@ -283,9 +283,14 @@ def nodupNat : List Nat → Bool
   | [] => true
   | x :: xs => !xs.contains x && nodupNat xs
 
+/-- a request HEADERS frame -/
+def WEv.isReqHeaders : WEv → Bool
+  | .frame true (.headers _ _ _) => true
+  | _ => false
+
 def noOpenAfterGoaway : List WEv → Bool
   | [] => true
-  | .frame _ (.goaway _ _) :: ws => ws.all (fun | .frame true (.headers _ _ _) => false | _ => true)
+  | .frame _ (.goaway _ _) :: ws => ws.all (fun w => !w.isReqHeaders)
   | _ :: ws => noOpenAfterGoaway ws
 
 /-- Well-formed traffic, as far as the property needs it: per-stream order respected (no
@@ -304,7 +309,11 @@ def Err.isLoss : Err → Bool
   | .closed _ => true
   | _ => false
 
-def lossesOK (ws : List WEv) : Bool := ws.all (fun | .lost err => err.isLoss | _ => true)
+def WEv.lossOK : WEv → Bool
+  | .lost err => err.isLoss
+  | _ => true
+
+def lossesOK (ws : List WEv) : Bool := ws.all WEv.lossOK
 
 /-- **The property's predicate on everything that was delivered**, for well-formed traffic
 whose streams are `es` (= `expects [] ws`): every delivered trace carries the test name of
